@@ -40,6 +40,7 @@ SCRIPTS = [
     ["name s15", "version 1.0", "", "float array A[2, 2] =", "    {w}", "Gate(A, k={x}-{y}*{z}) | %(m)s"],
     ["name s16", "version 1.0", "", "Dgate(arcsin({a})*{b}-{c}, -({a}**2)+{b}) | %(m)s"],
     ["name s17", "version 1.0", "", "Dgate({phi}-{phi_0}*{phi_0_1}, k={U}+{U_0_0}/{phi}) | %(m)s", "float array A =", "    {U}, {U_0_0}", "Gate(A, {phi_0}) | %(m)s"],
+    ["name s18", "version 1.0", "", "MeasureX | 0", "MeasureX | 1", "MeasureX | 12", "Dgate(q0-2*q1, {a}) | %(m)s", "Zgate(q1**q0, k=q12/q1-q0) | %(m)s", "Rgate({b}*2) | %(m)s"],
     ["name s12", "version 1.0", "target X8 (shots=%(i)s)", "", "Dgate(%(f)s, %(f)s) | %(m)s", "Vac | [%(m)s, %(m)s]"],
 ]
 
@@ -94,6 +95,11 @@ FILE_TREES = {
     "template_include_with_colliding_parameter_names": {
         "main.xbb": 'name main\nversion 1.0\ninclude "sub.xbb"\n\nsub(alpha={beta}, beta=0.5) | [2, 3]\nRgate({beta}) | 2\n',
         "sub.xbb": "name sub\nversion 1.0\n\nDgate({alpha} - {beta}, {alpha} + 2*{beta}) | 0\nBSgate({alpha}, {beta}) | [0, 1]\n",
+    },
+    # register transforms inside an included program and next to a template parameter: the library copies these operations
+    "included_program_with_register_transforms": {
+        "main.xbb": 'name main\nversion 1.0\ninclude "sub.xbb"\n\nsub | [0, 1, 2]\nMeasureX | 10\nDgate(q10-q2*3, {a}) | 3\nsub | [0, 1, 2]\n',
+        "sub.xbb": "name sub\nversion 1.0\n\nMeasureX | 0\nMeasureX | 1\nZgate(q0-2*q1, k=q1/q0) | 2\nXgate(q1**q0-q0) | 2\n",
     },
     "template_include_with_swapped_parameter_names": {
         "main.xbb": 'name main\nversion 1.0\ninclude "mix.xbb"\n\nmix(theta={phi}, phi={theta}, gam={phi}*{gam}) | [0, 1]\nmix(theta=0.25, phi={theta}, gam={theta}) | [1, 2]\n',
@@ -160,15 +166,9 @@ def observe(bb, spec, text):
     return (normalise(_snap.program(p)), t, inst_text)
 
 
-def pairing_violations(bb, spec, text):
-    """the documented freedom: a register transform may list its registers in any order, but the list stays paired with its
-    function - func applied to the measurement values of the listed registers, in the listed order, is the written expression"""
+def _pairing_of(prog, label, bad):
     import sympy
-    if isinstance(SCRIPTS[spec], tuple):
-        return []
-    bad = []
-    p = bb.loads(text)
-    for oi, o in enumerate(p.operations):
+    for oi, o in enumerate(prog.operations):
         for where, a in [("arg %d" % i, a) for i, a in enumerate(o.get("args", []))] + [("kwarg %s" % k, a) for k, a in o.get("kwargs", {}).items()]:
             if type(a).__name__ != "RegRefTransform":
                 continue
@@ -177,10 +177,34 @@ def pairing_violations(bb, spec, text):
                 got = complex(a.func(*[val[r] for r in a.regrefs]))
                 exp = complex(a.expr.subs({sympy.Symbol("q%d" % r): v for r, v in val.items()}))
             except Exception as e:  # noqa
-                bad.append("operation %d %s: %s" % (oi, where, type(e).__name__))
+                bad.append("%s operation %d %s: %s" % (label, oi, where, type(e).__name__))
                 continue
             if abs(got - exp) > 1e-9 * max(1.0, abs(exp)):
-                bad.append("operation %d %s: func(values of registers %s in this order) = %r, the expression %s has the value %r" % (oi, where, list(a.regrefs), got, a.expr, exp))
+                bad.append("%s operation %d %s: func(values of registers %s in this order) = %r, the expression %s has the value %r" % (label, oi, where, list(a.regrefs), got, a.expr, exp))
+
+
+def pairing_violations(bb, spec, text):
+    """the documented freedom: a register transform may list its registers in any order, but the list stays paired with its
+    function - func applied to the measurement values of the listed registers, in the listed order, is the written expression.
+    Checked on the loaded program (also when it comes from a file tree with includes), on an instance of it when it is a
+    template, and on a deep copy (the library itself copies the operations of included programs and of instances)"""
+    import copy
+    bad = []
+    if isinstance(SCRIPTS[spec], tuple):
+        nm = SCRIPTS[spec][1]
+        if not nm.startswith("files:"):
+            return []
+        p = _load_tree(bb, nm[6:])
+    else:
+        p = bb.loads(text)
+    _pairing_of(p, "loaded program,", bad)
+    names = sorted(p.parameters)
+    if names:
+        try:
+            _pairing_of(p(**{n: 0.5 + 0.25 * k for k, n in enumerate(names)}), "instance of the template,", bad)
+        except Exception as e:  # noqa  (observe() reports an instance that cannot be made)
+            pass
+    _pairing_of(copy.deepcopy(p), "deep copy,", bad)
     return bad
 
 
